@@ -159,6 +159,31 @@ func c19ServerSuite(t *testing.T) (*conformancev1.TestSuite, map[string]c19SrvCa
 	return suite, byName
 }
 
+// the same sharpness over Connect GET: the message travels in the URL (IdempotentUnary), so it also
+// passes through whatever limits the HTTP server puts on request lines and header blocks
+func c19ServerGetSuite(t *testing.T, byName map[string]c19SrvCase) *conformancev1.TestSuite {
+	unary := conformancev1.StreamType_STREAM_TYPE_UNARY
+	suite := &conformancev1.TestSuite{
+		Name:                        "C19 Server Sharp GET",
+		ReliesOnMessageReceiveLimit: true,
+		ReliesOnConnectGet:          true,
+		RelevantProtocols:           []conformancev1.Protocol{conformancev1.Protocol_PROTOCOL_CONNECT},
+		RelevantCodecs:              []conformancev1.Codec{conformancev1.Codec_CODEC_PROTO},
+	}
+	unaryDef := &conformancev1.UnaryResponseDefinition{Response: &conformancev1.UnaryResponseDefinition_ResponseData{ResponseData: []byte("test response")}}
+	for _, c := range []c19SrvCase{{"srvget/idem/below", unary, []int32{-1}}, {"srvget/idem/at", unary, []int32{0}}, {"srvget/idem/above", unary, []int32{1}}} {
+		byName[c.name] = c
+		tc := &conformancev1.TestCase{Request: &conformancev1.ClientCompatRequest{
+			TestName: c.name, StreamType: c.st, UseGetHttpMethod: true,
+			Service: proto.String("connectrpc.conformance.v1.ConformanceService"), Method: proto.String("IdempotentUnary"),
+		}}
+		tc.Request.RequestMessages = append(tc.Request.RequestMessages, c19Any(t, &conformancev1.IdempotentUnaryRequest{ResponseDefinition: unaryDef}))
+		tc.ExpandRequests = append(tc.ExpandRequests, &conformancev1.TestCase_ExpandedSize{SizeRelativeToLimit: proto.Int32(c.offs[0])})
+		suite.TestCases = append(suite.TestCases, tc)
+	}
+	return suite
+}
+
 func c19ClientSuite(t *testing.T) *conformancev1.TestSuite {
 	zeros := func(n int) []byte { return make([]byte, n) }
 	unaryDef := func(n int) *conformancev1.UnaryResponseDefinition {
@@ -234,12 +259,19 @@ func TestVerifC19Sharp(t *testing.T) {
 					Compression: conformancev1.Compression(z), StreamType: conformancev1.StreamType(st), UseTLS: f[2] == "1",
 					UseMessageReceiveLimit: true,
 				})
+				if conformancev1.Protocol(p) == conformancev1.Protocol_PROTOCOL_CONNECT && conformancev1.StreamType(st) == conformancev1.StreamType_STREAM_TYPE_UNARY {
+					cfgCases = append(cfgCases, configCase{
+						Version: conformancev1.HTTPVersion(v), Protocol: conformancev1.Protocol(p), Codec: conformancev1.Codec_CODEC_PROTO,
+						Compression: conformancev1.Compression(z), StreamType: conformancev1.StreamType(st), UseTLS: f[2] == "1",
+						UseMessageReceiveLimit: true, UseConnectGET: true,
+					})
+				}
 			}
 		}
 	}
 	srvSuite, srvCases := c19ServerSuite(t)
 	files := map[string][]byte{}
-	for name, s := range map[string]*conformancev1.TestSuite{"c19_server.yaml": srvSuite, "c19_client.yaml": c19ClientSuite(t)} {
+	for name, s := range map[string]*conformancev1.TestSuite{"c19_server.yaml": srvSuite, "c19_server_get.yaml": c19ServerGetSuite(t, srvCases), "c19_client.yaml": c19ClientSuite(t)} {
 		data, err := protojson.Marshal(s)
 		if err != nil {
 			t.Fatal(err)
